@@ -106,7 +106,7 @@ class Section(Entity):
         :returns: The newly created property.
         :rtype: nixio.Property
         """
-        if copy_from:
+        if copy_from is not None:
             if not isinstance(copy_from, Property):
                 raise TypeError("Object to be copied is not a Property")
             clsname = "properties"
